@@ -369,7 +369,11 @@ var (
 // running program). fresh=true: the state of a process that has not called the writer package yet, so the
 // threads race through its lazy first-use initialisation (the reader package initialises eagerly at load).
 func resetState(nThreads int, fresh bool) {
-	vsync.ResetAll()
+	if fresh {
+		vsync.ResetFirstUse()
+	} else {
+		vsync.ResetAll()
+	}
 	reader.RegisterUnserializer(keyShared, &namedU{"u-initial"})
 	for i := 0; i < 4; i++ {
 		reader.UnregisterUnserializer(privKey(i))
